@@ -1008,14 +1008,35 @@ class SVG:
             shape.round_floats(ndigits, inplace=True)
         return self
 
+    def _painted_elsewhere(self):
+        """Predicate for elements whose own paint says nothing about what they contribute.
+
+        The children of a clipPath are geometry: fill="none" or opacity="0" there still
+        clips. A template in defs, and anything else a use element refers to, is
+        painted by the use elements that instance it, with their paint."""
+        href = _xlink_href_attr_name()
+        used_ids = {
+            use.attrib.get(href, "")[1:] for use in self.xpath("//svg:use")
+        } - {""}
+
+        def test(el):
+            return any(
+                strip_ns(a.tag) in ("clipPath", "defs") or a.attrib.get("id") in used_ids
+                for a in itertools.chain((el,), el.iterancestors())
+            )
+
+        return test
+
     def remove_empty_subpaths(self, inplace=False):
         if not inplace:
             svg = self._clone()
             svg.remove_empty_subpaths(inplace=True)
             return svg
 
-        for shape in self.shapes():
-            if isinstance(shape, SVGPath):
+        elements = self._elements()
+        painted_elsewhere = self._painted_elsewhere()
+        for el, (shape,) in elements:
+            if isinstance(shape, SVGPath) and not painted_elsewhere(el):
                 shape.remove_empty_subpaths(inplace=True)
 
         return self
@@ -1029,11 +1050,9 @@ class SVG:
         self._update_etree()
 
         remove = []
+        painted_elsewhere = self._painted_elsewhere()
         for el, (shape,) in self._elements():
-            # the children of a clipPath are geometry, what they are painted with is
-            # irrelevant: fill="none" or opacity="0" there still clips; a template in
-            # defs is painted by the use elements that instance it, with their paint
-            if any(strip_ns(a.tag) in ("clipPath", "defs") for a in el.iterancestors()):
+            if painted_elsewhere(el):
                 continue
             if not shape.might_paint():
                 remove.append(el)
